@@ -197,6 +197,9 @@ def generic_rules(res, hist, allow_exc=(), allow_blocked=(), key=""):
         if r is not None and r[0] == "exc":
             if (op[0], r[1]) in allow_exc or ("*", r[1]) in allow_exc or r[1] == "NoChannel":
                 continue  # (NoChannel = harness cascade of an earlier, separately judged failure)
+            if op[0] == "sleep" and r[1] == "KeyboardInterrupt" and hist.case["actors"][aid]["side"] == "w":
+                # a worker body still asleep 5 s after the gateway was told to terminate is interrupted by design
+                continue
             V.append(v("unexpected-exception", f"{op[0]};{r[1]}", f"actor {aid} op {oi} {op[:3]}: {r[1]}: {r[2][:300]}"))
     if res.setup_error is not None:
         V.append(v("setup-failed", res.setup_error[1], res.setup_error[2]))
